@@ -267,14 +267,17 @@ class Interp(Exec):
         # 1. invariant on entry (index 0)
         ivar = "loop_i"
         self.st.env[ivar] = VInt(0)
+        self.touch(TInt, z3.IntVal(0))
         if lst is not None:
             self.st.env["loop_n"] = VInt(lst.n)
+            self.touch(TInt, lst.n)
         for j, inv in enumerate(invs):
             self.prove_clause("loop%d-entry/%d" % (ordinal, j), inv, kind="loop-entry")
         # 2. havoc what the body modifies, assume invariant
         self.havoc_loop_targets(s, fi)
         i = self.fresh("i", z3.IntSort())
         self.touch(TInt, i)
+        self.touch(TInt, i + 1)
         self.st.env[ivar] = VInt(i)
         self.assume(i >= 0)
         if lst is not None:
@@ -587,6 +590,12 @@ class Interp(Exec):
                 return r
             if name in self.reg.obj_methods or (base.cls and "%s.%s" % (base.cls, name) in self.reg.obj_methods):
                 return VMethod(base, name)
+            if base.cls in self.reg.opaque_classes:
+                fi = self.src.find_method(self.reg.opaque_classes[base.cls], base.cls, name)
+                if fi is not None:
+                    if fi.kind == "property":
+                        return self.call_function(fi, [base], {}, node)
+                    return VFunc(fi.fid, base)
             raise Unsupported("attribute %s of opaque object (cls=%s)" % (name, base.cls))
         if isinstance(base, VRec):
             return self.from_term(base.ty.get(base.t, name), base.ty.fty(name))
@@ -922,6 +931,8 @@ class Interp(Exec):
                 return self.dict_get(base, k)
             if isinstance(c, ListV):
                 return self.list_get(base, k)
+            if isinstance(c, OrdSetV) and isinstance(k, VInt) and z3.is_int_value(z3.simplify(k.t)) and z3.simplify(k.t).as_long() in (0, -1):
+                return self.os_peek(base, z3.simplify(k.t).as_long() == 0)
             if isinstance(c, EmptyV):
                 if self.spec_mode:
                     return VObj(self.fresh("undef", ObjSort))
